@@ -17,6 +17,12 @@ ASSUMPTIONS = ["records come from AsyncGraph.get_record() of the tree under test
 LEVEL = "exploration"
 
 
+def W_vec_of(h):
+    from rexmon.witness import vec_of
+
+    return vec_of(h)
+
+
 def F6(x):
     return Fraction(int(round(float(x) * 1e6)), 10**6)
 
@@ -140,6 +146,13 @@ def check_record(rec, nodes, stats, wall_clock=False, own_nonce=None):
                     src = [int(x) for x in onp.array(iw.data.src[k])]
                     if tag != exp or any(x != nodes[m].idx for x in src):
                         bad("window_payload", conn=cid, k=k, tag=tag, src=src, expected=exp)
+                        break
+                    # the non-scalar payload leaf of every slot belongs to that slot's message (vec is a function of h)
+                    vecs = onp.asarray(iw.data.vec[k]).astype(onp.int64).tolist()
+                    hs = [int(x) for x in onp.asarray(iw.data.h[k])]
+                    want = [W_vec_of(hh) if sq >= 0 else [0, 0, 0] for hh, sq in zip(hs, exp)]
+                    if vecs != want:
+                        bad("window_vector_payload_not_its_messages", conn=cid, k=k, got=vecs, expected=want, seqs=exp)
                         break
                     # times of window entries equal the message record's
                     for wi, sq in enumerate(exp):
